@@ -1305,6 +1305,60 @@ func (r *EngineRunner) Exec(f []string) (res string) {
 		return r.execLock(f)
 	case "concsched", "concpark", "concstress", "concmix", "concbg":
 		return r.execConc(f)
+	case "hostileget": // E hostileget <goroutines> <rounds>: concurrent readers that scribble over whatever Get returned
+		if r.db == nil {
+			return "ok"
+		}
+		type kvp struct{ k, v []byte }
+		var live []kvp
+		for k, v := range r.ref.m {
+			live = append(live, kvp{[]byte(k), append([]byte(nil), v...)})
+		}
+		sort.Slice(live, func(i, j int) bool { return bytes.Compare(live[i].k, live[j].k) < 0 })
+		if len(live) == 0 {
+			return "ok"
+		}
+		ng, rounds := atoi(f[2]), atoi(f[3])
+		var wg sync.WaitGroup
+		var mu sync.Mutex
+		bad := ""
+		for g := 0; g < ng; g++ {
+			wg.Add(1)
+			go func(g int) {
+				defer wg.Done()
+				defer func() {
+					if e := recover(); e != nil {
+						mu.Lock()
+						bad = fmt.Sprintf("panic in a concurrent Get: %v", e)
+						mu.Unlock()
+					}
+				}()
+				x := uint64(g)*2654435761 + 12345
+				for i := 0; i < rounds; i++ {
+					x = x*6364136223846793005 + 1442695040888963407
+					// all readers walk the same few keys at the same time
+					e := live[int((x>>33)%uint64(min(len(live), 3)))]
+					key := append([]byte(nil), e.k...)
+					got, err := r.db.Get(key)
+					if err != nil || !bytes.Equal(got, e.v) {
+						mu.Lock()
+						if bad == "" {
+							bad = fmt.Sprintf("a concurrent Get of %s returned %s (err %v), the value is %s: a slice handed to another caller was modified", Obs(e.k), Obs(got), err, Obs(e.v))
+						}
+						mu.Unlock()
+						return
+					}
+					for j := range got {
+						got[j] ^= 0xa5 // the caller owns what Get returned
+					}
+				}
+			}(g)
+		}
+		wg.Wait()
+		if bad != "" {
+			r.fail("C15", "%s", bad)
+		}
+		return "ok"
 	case "shardcount": // E shardcount <requested>: the shard count NewShardedIndex derives from a requested ShardNum
 		n := index.VerifNextPowerOfTwo(atoi(f[2]))
 		if n < 1 || n&(n-1) != 0 {
